@@ -43,6 +43,7 @@ type harness struct {
 	owner    map[[2]int]int // which worker thread feeds (c,d)
 	isWorker map[int]bool
 	hole     map[[2]int]bool
+	pool     *tcpassembly.StreamPool
 }
 
 // foreign: a callback for (c,d) that runs on a worker thread which does not feed (c,d) means that
@@ -135,6 +136,13 @@ func (s *stream) Reassembled(rs []tcpassembly.Reassembly) {
 }
 
 func (s *stream) ReassemblyComplete() {
+	// (see conc_reasm) completion of a never-used stream that is not registered in the pool: a flusher still held a
+	// pointer to a connection object that was recycled for a stream which lost its creation race
+	if !s.used.Load() && s.h.pool != nil && !s.h.pool.VerifRegistered(s) {
+		s.used.Store(true)
+		s.h.emit(vh.M{"op": "orphancomplete", "c": 2*s.c + s.d})
+		return
+	}
 	s.enter("complete")
 	defer s.leave()
 	s.h.emit(vh.M{"op": "complete", "c": 2*s.c + s.d, "remove": true})
@@ -185,6 +193,7 @@ func runScenario(tr *vh.Trace, sc int, s scen, controlled bool) {
 	h := &harness{sc: sc, content: map[[2]int]*asmc.Content{}, next: map[[2]int]int{}, owner: map[[2]int]int{}, isWorker: map[int]bool{}, hole: map[[2]int]bool{}}
 	h.emit(vh.M{"op": "cfg", "asm": "tcpassembly", "limit": 0, "controlled": controlled})
 	pool := tcpassembly.NewStreamPool(h)
+	h.pool = pool
 	progs := parseProgs(s.Progs)
 	for ti, prog := range progs {
 		for _, p := range prog {
